@@ -264,3 +264,33 @@ theorem stD_cls_other {c o} (ht : cfg.tupleStrat = false) (ho : ∀ kvs, o ≠ .
   all_goals (rw [stD] <;> try (intro kvs h; cases h)) <;> simp only [ht, Bool.false_eq_true, if_false] <;> rfl
 
 end CattrsModel
+
+namespace CattrsModel
+variable (w : World) (cfg : Cfg)
+
+/-! ### class unions -/
+
+theorem stF_union (cs : List Nat) (hn : Bool) (o : Obj) :
+    stF w cfg (.union cs hn) o =
+      match unionPick w cs hn o with
+      | .ok m => if m ∈ cs then stF w cfg (.cls m) o else Option.none
+      | .none => some .none
+      | _ => Option.none := by
+  rw [stF]
+  split <;> first | rfl | (split <;> simp_all)
+
+theorem stD_union (cs : List Nat) (hn : Bool) (o : Obj) :
+    stD w cfg (.union cs hn) o =
+      match unionPick w cs hn o with
+      | .ok m => if m ∈ cs then stD w cfg (.cls m) o else .error .leaf
+      | .none => .ok .none
+      | _ => .error .leaf := by
+  rw [stD]
+  split <;> first | rfl | (split <;> simp_all)
+
+theorem sizeOf_cls_lt_union {m : Nat} {cs : List Nat} (h : m ∈ cs) (hn : Bool) :
+    sizeOf (Ty.cls m) < sizeOf (Ty.union cs hn) := by
+  have := List.sizeOf_lt_of_mem h
+  simp at this ⊢; omega
+
+end CattrsModel
